@@ -61,15 +61,15 @@ def tickerEntry (s : State) : String :=
   match s.tpc with
   | .loadPos => s!"0.{site tickerSites 0}.p"
   | .storePos => s!"0.{site tickerSites 1}.p"
-  | .swapSlot => s!"0.{site tickerSites 3}.s{s.tpos}"
-  | .close => s!"0.{site tickerSites 4}.c{s.tlast}"
+  | .swapSlot => s!"0.{site tickerSites 2}.s{s.tpos}"
+  | .close => s!"0.{site tickerSites 3}.c{s.tlast}"
 
 def reqEntry (s : State) (t : Nat) : String :=
   match s.rpc t with
   | .idle => s!"{t}.idle"
-  | .loadPos => s!"{t}.{site requestSites 2}.p"
-  | .loadSlot => s!"{t}.{site requestSites 3}.s{(s.rpos t + s.rk t) % s.n}"
-  | .reloadPos => s!"{t}.{site requestSites 4}.p"
+  | .loadPos => s!"{t}.{site requestSites 0}.p"
+  | .loadSlot => s!"{t}.{site requestSites 1}.s{(s.rpos t + s.rk t) % s.n}"
+  | .reloadPos => s!"{t}.{site requestSites 2}.p"
 
 def opAct (t : Nat) (base : Int) : Op → Act
   | .new d => .invoke t d
